@@ -18,7 +18,7 @@ func TestVerifC12Faults(t *testing.T) {
 	defer rep.Finish(t)
 	rep.Rule = "an existing account (account key, proof key and account-level device key present) obtains its member/device identity for fresh multi-member groups while (a) the k-th datastore access of that call fails once, for EVERY k, (b) every write fails (read-only datastore), " +
 		"(c) every write fails from the k-th on; oracle: the call either returns an error, or member and device keys that differ from the account key, the account proof key and the account-level device key, " +
-		"that are the ones a fault-free sibling derivation gives for the member key, and a device key not shared between two groups. distinct = (fault plan, k)"
+		"that are the ones a fault-free sibling derivation gives for the member key, and a device key not shared between two groups; after the fault, the identity the store uses for the group is the one a restart on the same datastore reads. distinct = (fault plan, k)"
 	injected := fmt.Errorf("verif: injected datastore error")
 	base := newVStore("A", 2, 2)
 	ag, _, err := base.ss.GetGroupForAccount()
@@ -103,6 +103,21 @@ func TestVerifC12Faults(t *testing.T) {
 				}
 				rep.Eval(1)
 				judge(tag, g, md, err, seen)
+				// whatever identity the store hands out for this group from now on (the fault is over) must be the one it has
+				// persisted: a new instance on the same datastore - a restart - reads the same keys
+				if plan == 0 {
+					md1, err1 := st.ss.GetOwnMemberDeviceForGroup(g)
+					if err1 == nil {
+						re := newVStoreOn("restarted", st.ds.Clone(), 2, 2)
+						md2, err2 := re.ss.GetOwnMemberDeviceForGroup(g)
+						rep.Eval(1)
+						if err2 != nil || !md2.Device().Equals(md1.Device()) || !md2.Member().Equals(md1.Member()) {
+							rep.Violate("C12/identity-not-persisted/under-faults", fmt.Sprintf("after a datastore fault the store acts in a group under keys it has not persisted: a restart on the same datastore reads other keys (err=%v)", err2), tag)
+						} else {
+							rep.Count("identities_same_after_restart", 1)
+						}
+					}
+				}
 			}
 		}
 	}
